@@ -387,7 +387,9 @@ impl Sim {
         let prev_ent = seams::set_entropy(Some(ent));
         seams::set_clock_ns(Some(clk));
         seams::set_mono_ns(self.now);
+        let prev_node = crate::exec::set_current_node(node);
         let r = f(self);
+        crate::exec::set_current_node(prev_node);
         seams::set_clock_ns(prev_clock);
         let ent = seams::set_entropy(prev_ent).expect("entropy stream vanished");
         self.nodes[node].entropy = ent;
@@ -498,6 +500,8 @@ impl Sim {
                     let nd = &mut self.nodes[node];
                     nd.up = true;
                     nd.incarnation += 1;
+                    // a restarted party is a new process: whatever the library kept in memory is gone
+                    crate::exec::restart_node(node);
                     if self.trace_on {
                         self.trace.push(format!("t={} restart node={}", self.now, node));
                     }
